@@ -19,6 +19,7 @@ import (
 	"github.com/apache/thrift/lib/go/thrift"
 	"github.com/parsyl/parquet"
 	sch "github.com/parsyl/parquet/schema"
+	"replay/fcheck"
 )
 
 func sp(s string) *string   { return &s }
@@ -794,6 +795,55 @@ func TestReplayC16(t *testing.T) {
 				} else if !reflect.DeepEqual(got, want) {
 					fail("PageHeaders reports %d headers, an independent walk finds %d pages, or their contents differ", len(got), len(want))
 				}
+			}
+		}
+	}
+}
+
+// ---- C02: structural validity against the independent checker (bounded)
+
+var (
+	req = sch.FieldRepetitionType_REQUIRED
+	opt = sch.FieldRepetitionType_OPTIONAL
+	rep = sch.FieldRepetitionType_REPEATED
+)
+
+var recLeaves = []fcheck.Leaf{
+	{Path: []string{"id"}, Reps: []sch.FieldRepetitionType{req}, Type: sch.Type_INT64},
+	{Path: []string{"name"}, Reps: []sch.FieldRepetitionType{opt}, Type: sch.Type_BYTE_ARRAY},
+	{Path: []string{"tags"}, Reps: []sch.FieldRepetitionType{rep}, Type: sch.Type_BYTE_ARRAY},
+	{Path: []string{"flag"}, Reps: []sch.FieldRepetitionType{req}, Type: sch.Type_BOOLEAN},
+	{Path: []string{"ratio"}, Reps: []sch.FieldRepetitionType{opt}, Type: sch.Type_DOUBLE},
+	{Path: []string{"count"}, Reps: []sch.FieldRepetitionType{req}, Type: sch.Type_INT32, Conv: "UINT_32"},
+	{Path: []string{"maybe"}, Reps: []sch.FieldRepetitionType{opt}, Type: sch.Type_BOOLEAN},
+	{Path: []string{"items", "code"}, Reps: []sch.FieldRepetitionType{rep, req}, Type: sch.Type_BYTE_ARRAY},
+	{Path: []string{"items", "score"}, Reps: []sch.FieldRepetitionType{rep, opt}, Type: sch.Type_INT32},
+	{Path: []string{"amount"}, Reps: []sch.FieldRepetitionType{req}, Type: sch.Type_INT32},
+}
+
+var codecIDs = map[string]sch.CompressionCodec{"uncompressed": sch.CompressionCodec_UNCOMPRESSED, "snappy": sch.CompressionCodec_SNAPPY, "gzip": sch.CompressionCodec_GZIP}
+
+func TestBoundedC02(t *testing.T) {
+	rs := recs(40, 2)
+	hists := []string{"", "W", "AW", "AAAW", "AAAAAAAW", "AAAWAAAAAWAW", "AWAWAWAW", "AAAAAAAAAAAAAAAAAAAAAAAAAAAAAAAAAAAAAAAAW", "AAAAWWAAW", "AAWAAA", "AAAAAAAAAWAAAAAAAAAAAAAAAAAAAAAAAAAAAAAW"}
+	for name, codec := range codecs {
+		for _, h := range hists {
+			for _, ps := range []int{1, 2, 3, 4, 8, 1000} {
+				func() {
+					defer func() {
+						if r := recover(); r != nil {
+							t.Errorf("REPLAY-FAIL C02 shape=Rec history=%s page=%d codec=%s: panic: %v", h, ps, name, r)
+						}
+					}()
+					file, batches := runHistory(t, rs, []byte(h), ps, codec)
+					var bl []int
+					for _, b := range batches {
+						bl = append(bl, len(b))
+					}
+					for _, e := range fcheck.Check(file, fcheck.Expect{Leaves: recLeaves, Codec: codecIDs[name], PageSize: ps, Batches: bl}) {
+						t.Errorf("REPLAY-FAIL C02 shape=Rec history=%s page=%d codec=%s: %s", h, ps, name, e)
+					}
+				}()
 			}
 		}
 	}
